@@ -169,6 +169,9 @@ func (k *checker) native(tag, fam string, want map[string]string, h *dto.Histogr
 		return
 	}
 	schema, wpos, wneg := e.wantNative()
+	k.class(true, "native_histogram_compared")
+	k.class(len(h.GetPositiveSpan()) > 1 || len(h.GetNegativeSpan()) > 1, "native_histogram_several_spans")
+	k.class(len(wpos) > 1 || len(wneg) > 1, "native_histogram_several_buckets_of_a_sign")
 	if h.GetSchema() != schema {
 		k.bad("native_schema", "%s has schema %d, want %d (SDK scale %d)", at, h.GetSchema(), schema, e.scale)
 	}
